@@ -1,0 +1,5 @@
+//go:build !verif
+
+package gradtrack
+
+func verifRule(_ *backwardEdge) {}
